@@ -146,7 +146,9 @@ def run(ctx, rep):
         pth = re.sub(r"(::)?<'[a-z_]+>", "", n.get("path", ""))
         roots = {re.sub(r"(::)?<'[a-z_]+>", "", r_) for r_ in lazy_roots}
         return pth in roots or any(pth == "proguard::<%s as std::ops::Deref>::deref::__stability::LAZY" % r_[len("proguard::"):] for r_ in roots)
-    amb = [(q, n, w) for q, n, w in E.ambient_sources(fx, seen) if not is_lazy_static(n)]
+    def is_once_cell(n):
+        return n.get("k") == "Static" and E.write_once_static(fx, n.get("path"), n.get("ty")) is not None
+    amb = [(q, n, w) for q, n, w in E.ambient_sources(fx, seen) if not is_lazy_static(n) and not is_once_cell(n)]
     rep.check("C18.3", "C18.3/ambient", not amb, found=[(C.short_fn(q), w) for q, n, w in amb] or "%d reachable local bodies, no ambient source" % len(seen),
               expected="identifier depends on nothing but the bytes")
     pins = CR.lock_pins()
